@@ -102,6 +102,9 @@ def spine : Value → List Value × Value
   | .pair a d => ((spine d).1.cons a, (spine d).2)
   | t => ([], t)
 
+/-- the same as an `Option` (a value always has a spine: pairs are finite data here) -/
+def listOfValue? (v : Value) : Option (List Value × Value) := some (spine v)
+
 /-- inverse of `spine`: the elements consed onto the tail -/
 def withTail : List Value → Value → Value
   | [], t => t
